@@ -23,6 +23,7 @@ package flood
 import (
 	"fmt"
 	"hash/fnv"
+	"strings"
 
 	"github.com/postalsys/muti-metroo/internal/verifkit"
 )
@@ -98,6 +99,50 @@ func convPlace(s *simNet, rng *verifkit.Rand, res *convResult, shared bool) {
 	}
 }
 
+// convLarge gives node o a local route set that cannot travel in one advertisement: more than
+// 254 routes (the one-byte route count leaves 254 slots beside the presence route), or long
+// names whose encoded size exceeds the per-frame byte budget, incl. the sizes right at the
+// chunk boundaries.
+func convLarge(s *simNet, rng *verifkit.Rand, res *convResult, o int) string {
+	var n int
+	profile := []string{"cidr", "mixed", "long-names", "boundary"}[rng.Intn(4)]
+	switch profile {
+	case "cidr", "mixed":
+		n = rng.Range(255, 600)
+	case "long-names":
+		n = rng.Range(40, 140)
+	default:
+		n = []int{254, 255, 256, 508, 509, 510}[rng.Intn(6)]
+	}
+	for k := 0; k < n; k++ {
+		id := 1000 + o*1000 + k
+		var key simRouteKey
+		kind := profile
+		if profile == "mixed" {
+			kind = []string{"cidr", "domain", "forward"}[rng.Intn(3)]
+		}
+		switch kind {
+		case "domain":
+			key = simRouteKey{Kind: "domain", Key: simDomain(id, rng.Bool(), 0)}
+		case "forward":
+			key = simRouteKey{Kind: "forward", Key: fmt.Sprintf("lfwd-%d", id), Target: fmt.Sprintf("10.9.%d.%d:%d", id>>8&255, id&255, 2000+k)}
+		case "long-names":
+			if k%2 == 0 {
+				key = simRouteKey{Kind: "domain", Key: simDomain(id, rng.Bool(), rng.Range(150, 250))}
+			} else {
+				key = simRouteKey{Kind: "forward", Key: fmt.Sprintf("lfwd-%d-%s", id, strings.Repeat("k", rng.Range(80, 180))),
+					Target: fmt.Sprintf("%s.internal.example.org:%d", strings.Repeat("t", rng.Range(80, 180)), 2000+k)}
+			}
+		default:
+			key = simRouteKey{Kind: "cidr", Key: simCIDR(id, rng.Chance(1, 5)).String()}
+		}
+		if s.AddLocal(o, key) {
+			res.Adverts[o] = append(res.Adverts[o], key)
+		}
+	}
+	return fmt.Sprintf("large@%d=%s/%d", o, profile, n)
+}
+
 func convSomeDeliveries(s *simNet, rng *verifkit.Rand, k int) {
 	for ; k > 0; k-- {
 		p := s.Pending()
@@ -145,21 +190,54 @@ func (c *convResult) ReplayCollision(y int) bool {
 // convRun executes one PRNG scenario of the given class on graph g. cfgmod is passed to
 // newSimNet (C15 uses it to set the hop limit).
 func convRun(rng *verifkit.Rand, g simGraph, class string, shared bool, cfgmod func(i int, cfg *FloodConfig)) *convResult {
+	return convRunOpt(rng, g, class, convOpt{Shared: shared, Cfgmod: cfgmod})
+}
+
+// convOpt selects scenario variants of convRunOpt.
+type convOpt struct {
+	Shared bool // a key of each kind advertised by two agents
+	Large  bool // one agent originates a route set that needs several advertisements; every
+	// agent then announces exactly once in class flood, so that what is judged is what one
+	// announcement delivered and not what a later one repaired
+	Cfgmod func(i int, cfg *FloodConfig)
+}
+
+func convRunOpt(rng *verifkit.Rand, g simGraph, class string, opt convOpt) *convResult {
+	shared, cfgmod := opt.Shared, opt.Cfgmod
 	s := newSimNet(g.N, cfgmod)
 	res := &convResult{S: s, G: g, Class: class, Adverts: map[int][]simRouteKey{}, Quiesced: true}
+	large := ""
+	if opt.Large {
+		res.Class = class + "-large"
+	}
+	place := func() {
+		convPlace(s, rng, res, shared)
+		if opt.Large {
+			large = convLarge(s, rng, res, rng.Intn(g.N))
+		}
+	}
 	sc := &simSched{DupPct: 10, MaxDups: 3, MaxSteps: 2000 + 200*(len(g.Edges)+1)*g.N}
 	switch class {
 	case "flood":
 		s.ConnectGraph(g)
-		convPlace(s, rng, res, shared)
+		place()
 		rounds := rng.Range(1, 2)
-		res.Desc = fmt.Sprintf("flood %s adverts=%v rounds=%d", g, res.Adverts, rounds)
+		if opt.Large {
+			rounds = 1
+			sc.MaxSteps += 4000
+			res.Desc = fmt.Sprintf("flood %s %s rounds=1", g, large)
+		} else {
+			res.Desc = fmt.Sprintf("flood %s adverts=%v rounds=%d", g, res.Adverts, rounds)
+		}
 		for k := 0; k < rounds && res.Quiesced; k++ {
 			convAnnounceAll(s, rng)
 			res.Quiesced = s.simRunRandom(rng, sc)
 		}
 	case "built", "builtnat":
-		convPlace(s, rng, res, shared)
+		place()
+		if opt.Large {
+			sc.MaxSteps += 20000
+		}
 		pre := make([]int, g.N)
 		rank := make([]int, g.N)
 		for i := range rank {
@@ -180,7 +258,11 @@ func convRun(rng *verifkit.Rand, g simGraph, class string, shared bool, cfgmod f
 		}
 		edges := append([][2]int(nil), g.Edges...)
 		verifkit.Shuffle(rng, edges)
-		res.Desc = fmt.Sprintf("%s %s adverts=%v seq-start=%v connect-order=%v", class, g, res.Adverts, pre, edges)
+		if opt.Large {
+			res.Desc = fmt.Sprintf("%s %s %s seq-start=%v connect-order=%v", class, g, large, pre, edges)
+		} else {
+			res.Desc = fmt.Sprintf("%s %s adverts=%v seq-start=%v connect-order=%v", class, g, res.Adverts, pre, edges)
+		}
 		for _, e := range edges {
 			s.Connect(e[0], e[1])
 			switch rng.Intn(4) {
